@@ -286,11 +286,10 @@ func (g *gen) rewriteFile(p *packages.Package, f *ast.File, hints bool) {
 				// file operations of the lease-file package go to the simulated disk
 				if fn, ok := info.Uses[sel.Sel].(*types.Func); ok && fn.Pkg() != nil && fn.Pkg().Path() == "os" && ioutilPkgs[p.PkgPath] {
 					switch fn.Name() {
-					case "ReadFile", "WriteFile", "Rename", "Remove":
+					case "ReadFile", "WriteFile", "Rename", "Remove", "Create", "Open", "OpenFile":
+						// the last three return *simioutil.File, which has the usual *os.File methods
 						n.Fun = &ast.SelectorExpr{X: ident(simfsName), Sel: ident(fn.Name())}
 						usesSimfs = true
-					case "Create", "Open", "OpenFile":
-						fail("%s: os.%s in the lease-file package is not supported by the simulated disk", g.fset.Position(n.Pos()), fn.Name())
 					}
 				}
 			}
